@@ -580,6 +580,18 @@ class _Run:
 
     def st_For(self, s, st):
         it = self.ev(s.iter, st)
+        items = _constant_items(it)
+        if items is not None and 1 <= len(items) <= 6 and not s.orelse and not any(
+                isinstance(n, (ast.Break, ast.Continue)) for b in s.body for n in ast.walk(b)) and \
+                any(tag(x) in ('tuple', 'list') for x in items):
+            # a short table of constant records: one pass of the body per record (table-driven code reads like the
+            # if-chain it replaces)
+            for item in items:
+                if st.dead is not None:
+                    break
+                self.assign(s.target, item, st, s)
+                st = self.block(s.body, st)
+            return st
         return self._loop(s, st, 'for', it)
 
     def st_While(self, s, st):
@@ -990,6 +1002,13 @@ class _Run:
                 return ('bound', base, m.qname)
             ca = self.p.find_class_attr(k, name)
             if ca is not None:
+                try:
+                    ast.literal_eval(ca[1])
+                    if isinstance(ca[1], (ast.Dict, ast.Tuple, ast.List)):
+                        # a class-level table of constants (writes to class attributes are a C13 finding of their own)
+                        return self.ev(ca[1], State({}))
+                except (ValueError, TypeError, SyntaxError, MemoryError, RecursionError):
+                    pass
                 return ('g', f'{ca[0].qname}.{name}')
         return T.mk_attr(base, name)
 
@@ -1233,7 +1252,7 @@ class _Run:
             a0 = args[0]
             if T.is_const(a0) and isinstance(a0[1], (str, tuple)):
                 return C(len(a0[1]))
-            if tag(a0) == 'phi' and len(a0[1]) <= 4 and any(T.is_const(v) and isinstance(v[1], (str, tuple)) for _, v in a0[1]):
+            if tag(a0) == 'phi' and len(a0[1]) <= 8 and T.has_const_alternative(a0):
                 return T.mk_phi([(g, self.call(fn, (v,), (), node, st)) for g, v in a0[1]])
         if tg == 'g' and fn[1] == 'builtins.bool' and len(args) == 1 and not kws and T.boolish(args[0]):
             return args[0]              # bool() of a condition is that condition
@@ -1342,15 +1361,17 @@ class _Run:
         # to the current values of the enclosing locals (unless it rebinds them: nonlocal)
         closure = is_nested and f.parent is self.func and self.depth < self.ex.max_depth and \
             not any(isinstance(n, (ast.Nonlocal, ast.Global, ast.YieldFrom)) for n in ast.walk(f.node))
-        do_inline = closure or ((not is_nested) and self.depth < self.ex.max_depth and
-                                self.ex.inline(f.qname, self.depth))
+        # a memoised function is not re-executed on every call: never looked through (its result is a shared object)
+        memo = any(d in ('functools.lru_cache', 'functools.cache', 'functools.cached_property') for d in f.decorators)
+        do_inline = not memo and (closure or ((not is_nested) and self.depth < self.ex.max_depth and
+                                              self.ex.inline(f.qname, self.depth)))
         self.emit('call', node, st, call=t, inlined=do_inline)
         if not do_inline:
             return t
         binding = self.bind(f, full_args, kws)
         if binding is None:
             return t
-        if closure:
+        if closure and do_inline:
             own = _bound_names(f.node.body) | {a.arg for a in ast.walk(f.node.args) if isinstance(a, ast.arg)}
             free = {n.id for n in ast.walk(f.node) if isinstance(n, ast.Name) and isinstance(n.ctx, ast.Load)
                     and n.id not in own and n.id in st.env}
@@ -1361,7 +1382,7 @@ class _Run:
         self.embed(summ, node, st)
         if summ.normal != TRUE:
             st.guard = T.mk_and([st.guard, summ.normal])
-        if closure:
+        if closure and do_inline:
             # in-place updates of enclosing locals made by the local function (x[k] = v, x.append(..)) are updates of
             # the caller's variables
             for nm, old_val in binding.get('__free__', ()):
@@ -1506,6 +1527,15 @@ def _record_fields(project, k):
                if isinstance(s, ast.AnnAssign) and isinstance(s.target, ast.Name)]
     _RECORD_CACHE[key] = out
     return out
+
+
+def _constant_items(it):
+    """The elements of a literal tuple / list of constants (or of constant tuples), else None."""
+    def const(x):
+        return T.is_const(x) or (tag(x) in ('tuple', 'list') and all(const(y) for y in x[1]))
+    if tag(it) in ('tuple', 'list') and all(const(x) for x in it[1]):
+        return list(it[1])
+    return None
 
 
 def _truthy_array(t):
